@@ -278,6 +278,22 @@ def check_range(case):
     return None
 
 
+def known_finding_inputs():
+    def src(items, fl):
+        return {"items": items, "fl": fl, "susp": 0, "csusp": False, "fault": None}
+
+    ties = [["LP", 0, 0], ["LP", 0, 1]]
+    tenth = [["f", 0.1]] * 10
+    return [
+        {"tool": "nsmallest", "profile": "ltpure", "srcs": [src(ties, "tuple")], "fns": {}, "params": {"n": 2},
+         "plan": [], "close": True},
+        {"tool": "nlargest", "profile": "ltpure", "srcs": [src(ties + [["LP", 1, 2]], "tuple")], "fns": {},
+         "params": {"n": 3}, "plan": [], "close": True},
+        {"tool": "sum", "profile": "inexact", "srcs": [src(tenth, "list")], "fns": {}, "params": {}, "plan": [],
+         "close": True},
+    ]
+
+
 def shards(tier):
     large = [Shard(f"large-{name}", check, fuzz=0, strategy=cases_large(name), n=400, nontrivial=nontrivial,
                    classify=classify, thorough_mult=15)
@@ -297,6 +313,10 @@ def shards(tier):
                        nontrivial=lambda c: sum(len(d) for d in c["data"]) >= 2, thorough_mult=15))
     large.append(Shard("range-sources", check_range, strategy=range_cases(), n=800,
                        nontrivial=lambda c: len(range(*c["r"])) >= 2, thorough_mult=10))
+    # the inputs of the recorded findings themselves, so that each finding is reported (KNOWN-FINDING) at every seed;
+    # afterwards they are excluded like every other case of their kind
+    large.append(Shard("known-finding-inputs", check, cases=known_finding_inputs, nontrivial=lambda c: True,
+                       exhaustive=True))
     return large + [
         Shard(name, check, strategy=cases(name, 8 if tier == "quick" else 12), n=1200,
               nontrivial=nontrivial, classify=classify, thorough_mult=25)
